@@ -46,6 +46,14 @@ def gen_cases(tier, seed):
 def _make(kind, n, scale, gen, torch, matref):
     D = torch.float64
     Q = matref.haar(n, gen)
+    st = int(torch.randint(0, 6, (1,), generator=gen))
+    if n >= 2 and st == 0:  # exactly diagonal (unflagged), permuted diagonal, block diagonal inputs
+        Q = torch.eye(n, dtype=D)
+    elif n >= 2 and st == 1:
+        Q = torch.eye(n, dtype=D)[:, torch.randperm(n, generator=gen)]
+    elif n >= 3 and st == 2:
+        k_ = n // 2
+        Q = torch.block_diag(matref.haar(k_, gen), matref.haar(n - k_, gen))
     if kind == "zero":
         lam = torch.zeros(n, dtype=D)
     elif kind == "rank_k":
